@@ -420,7 +420,9 @@ def plan_for(prop, tier, seed, replay_file=None):
         return dict(jobs=store_jobs(prop, tier, seed) + re_, rule=STORE_RULE, assumptions=STORE_ASSUMPTIONS)
     if prop == 'C01':
         # complex selectors over annotations with relative offsets (range compression of annotation selectors)
-        extra = [gen_job('complexrel_p13', 'complexrel', 13, depth=1, style=seed % 5, reads=['anntext'], per_state=False, MaxAnns=10, MaxRes=2, MaxData=4)]
+        extra = [gen_job('complexrel_p13', 'complexrel', 13, depth=1, style=seed % 5, reads=['anntext'], per_state=False, MaxAnns=10, MaxRes=2, MaxData=4),
+                 # complex selectors over pairs of keys / data items / annotations
+                 gen_job('complexmeta_p10', 'complexmeta', 10, depth=1, style=(seed + 2) % 5, per_state=False, MaxAnns=10, MaxRes=3, MaxData=8, MaxSets=2, MaxKeys=4)]
         if tier != 'quick':
             extra.append(gen_job('complexrel_p13d2', 'complexrel', 13, depth=2, style=(seed + 1) % 5, per_state=False, sample_mod=40, MaxAnns=10, MaxRes=2, MaxData=4))
         return dict(jobs=store_jobs(prop, tier, seed) + extra, rule=STORE_RULE, assumptions=STORE_ASSUMPTIONS)
